@@ -408,6 +408,9 @@ pub fn run(ctx: &mut Ctx, c07: bool) {
         }
         cases.push((vec![b], "token-exhaustive".into()));
     }
+    for b in crate::lex::edge_cases() {
+        cases.push((vec![b], "lexer-edge".into()));
+    }
     // byte strings made of the pieces the reader's automaton distinguishes (markup openers and
     // closers, quotes, blanks, a byte-order mark, invalid UTF-8): they go through the whole check and
     // through the lexer correspondence
